@@ -9,7 +9,7 @@ P = {
     "classify_vec": lambda r: "%s/%s/%s%s" % (r.get("op"), r.get("ph"), "ok" if r["exp"].get("ok") else "refuse", "" if r.get("wk") else "/unkeyed"),
     "required_classes": ["merge/pair/ok", "merge/pair/refuse", "merge/focus/ok", "merge/focus/refuse", "merge/focus/refuse/unkeyed",
                          "merge/two/ok", "merge/two/refuse", "merge/two-rev/ok", "merge/root/ok", "merge/root/refuse"],
-    "level_text": "Mappings::merge is specified operationally (the code's zip over the union of keys with the A / B / AB combinations) and declaratively (refused iff first namespaces differ, comments differ, or descriptor / parameter index / shared-namespace name conflict on an entry present in both; otherwise keys = union at every level, column a from A, column b from B, absent where the side lacks the entry, comment from whichever side has one, projection onto (s,a) / (s,b) returns A / B). TLC checks operational = declarative over all pairs of one-key-per-level trees, a full focus table per level (presence x target name x comment absent/d/e x parameter source name x content disagreeing with its key), all overlaps of two class keys (each also with the entries of B inserted in the opposite order: the result may not depend on it) and all namespace / top-level comment combinations; every case is replayed through the real Mappings::merge; larger seeded random pairs (partial overlap at every level, comment conflicts, parameter source-name conflicts) run by the real code are judged by TLC with the declarative statement.",
+    "level_text": "Mappings::merge is specified operationally (the code's zip over the union of keys with the A / B / AB combinations) and declaratively (refused iff first namespaces differ, comments differ, or descriptor / parameter index / shared-namespace name conflict on an entry present in both; otherwise keys = union at every level, column a from A, column b from B, absent where the side lacks the entry, comment from whichever side has one, projection onto (s,a) / (s,b) returns A / B). TLC checks operational = declarative over all pairs of one-key-per-level trees, a full focus table per level (presence x target name x comment absent/d/e x parameter source name x content disagreeing with its key), all overlaps of two class keys (each also with the entries of B inserted in the opposite order: the result may not depend on it) and all namespace / top-level comment combinations; every case is replayed through the real Mappings::merge; larger seeded random pairs (partial overlap at every level, comment conflicts, parameter source-name conflicts) run by the real code are judged by TLC with the declarative statement. Comments that are the empty string are comments like any other (conflict, projection).",
     "level_note": "Trusted: TLC, projection Mappings <-> abstract tree (proj_quill.rs). Bounded: MC universe has one key per level except the two-class family; I2S inputs up to 14 classes. Descriptor / index conflicts need entries stored under a key that disagrees with their content; they are generated only in the focus family.",
     "assumptions": ["TLC/SANY/CommunityModules", "harness projection quill Mappings <-> abstract tree (proj_quill.rs)"],
 }
